@@ -18,7 +18,14 @@ import (
 // RNG is splitmix64; every random choice of a harness derives from VERIF_SEED.
 type RNG struct{ s uint64 }
 
-func NewRNG(seed uint64) *RNG { return &RNG{s: seed*0x9E3779B97F4A7C15 + 0x1234567} }
+// NewRNG hashes the seed first: the stream for seed k+1 must not be the stream for seed k
+// shifted by one draw.
+func NewRNG(seed uint64) *RNG {
+	z := seed + 0x9E3779B97F4A7C15
+	z = (z ^ (z >> 30)) * 0xBF58476D1CE4E5B9
+	z = (z ^ (z >> 27)) * 0x94D049BB133111EB
+	return &RNG{s: z ^ (z >> 31)}
+}
 
 func (r *RNG) U64() uint64 {
 	r.s += 0x9E3779B97F4A7C15
